@@ -279,6 +279,23 @@ def handle (sess : Sess) (rep : Report) (ln : Nat) (toks : List String) (obs : S
         let mine := "ok ; " ++ digest s'
         if mine == obs then ({ sess with model := some s', mon := mon }, rep)
         else ({ sess with model := none, mon := mon }, { rep.msg s!"DIVERGE line={ln} model={mine} impl={obs}" with diverged := rep.diverged + 1 })
+  | "dejump" :: rest =>
+    -- stand-in for d deadline-exceeded completions that were counted on the channel of that slot (the harness adds d
+    -- to its counter): the model's counter and the monitor's own count advance by d
+    if !sess.active then (sess, rep.bump "pool.skipped_after_divergence") else
+    if obs == "bad-op" then (sess, rep) else
+    match (arg (args rest) "slot").toNat?, (arg (args rest) "d").toNat? with
+    | some slot, some d =>
+      let rep := rep.bump "pool.de_counter_fast_forward"
+      let mon := { sess.mon with detectors := sess.mon.detectors.modify slot fun x => { x with de := x.de + d } }
+      match sess.model with
+      | none => ({ sess with mon := mon }, rep)
+      | some s =>
+        let s' := modRef s slot fun r => { r with deCalls := min (r.deCalls + d) 4294967295 }
+        let mine := "ok ; " ++ digest s'
+        if mine == obs then ({ sess with model := some s', mon := mon }, rep)
+        else ({ sess with model := none, mon := mon }, { rep.msg s!"DIVERGE line={ln} model={mine} impl={obs}" with diverged := rep.diverged + 1 })
+    | _, _ => (sess, rep.msg s!"BAD line={ln}")
   | ["other"] =>
     -- another channel of the process builds its own balancer: this one is untouched
     if !sess.active then (sess, rep.bump "pool.skipped_after_divergence") else
